@@ -326,7 +326,7 @@ def strata(tier, seed):
                     N = (2 ** q) ** d
                     qs.append(dict(shape=[2 ** q] * d, ranks=rk, pat=pat, ks=[1, 2, 5, N, N + 1], seed=seed))
     qs = [q for q in qs if len(q['shape']) >= 2]
-    yield Stratum('quantised optimum search', qs, 'qtt', size=len(qs), chunk=2, bounds={'q': [1, 3]})
+    yield Stratum('quantised optimum search', qs, 'qtt', seq=(tier == 'quick'), size=len(qs), chunk=2, bounds={'q': [1, 3]})
     fs = []
     for d in (2, 3):
         for n in (2, 3, 4, 5):
